@@ -22,8 +22,16 @@ class HelpResolver(DefaultResolver):
     def resolve(
         self, args, application
     ):  # type: (RawArgs, Application) -> ResolvedCommand
-        if args.tokens and args.tokens[0] == self._help_command_name:
-            del args.tokens[0]
+        tokens = args.tokens
+        if tokens and tokens[0] == self._help_command_name:
+            # Resolve without the help command name, then hand the caller's
+            # tokens back unchanged
+            del tokens[0]
+
+            try:
+                return super(HelpResolver, self).resolve(args, application)
+            finally:
+                tokens.insert(0, self._help_command_name)
 
         return super(HelpResolver, self).resolve(args, application)
 
